@@ -114,6 +114,7 @@ struct Conv {
                 }
             }
         }
+        o.region = cause;
         mpz_class got;
         bool ok = guard(o, [&] {
             if constexpr (Form == 0) {
